@@ -144,6 +144,23 @@ def meet_case(rng):
     return " | ".join(secs), meta
 
 
+def deadline_reply_case(rng):
+    """one connection: a handler replies under a context with a 50 ms deadline; more than 50 ms later another call is answered
+    under the plain context: whatever the first reply left on the connection must not fail the second"""
+    secs = ["svc 76 70 31 75 -", "iface %s %s" % (S.hx(b"a.b"), S.hx(b"interface a.b\nmethod M() -> ()"))]
+    s1 = [S.Step("d", "e", val="{6e:D31;}")]
+    s2 = [S.Step("r", "e", val="{6e:D32;}")]
+    scripts = {b"a.b.Bounded": (s1, False), b"a.b.Plain": (s2, False)}
+    secs += [S.script_text(b"a.b.Bounded", s1, False), S.script_text(b"a.b.Plain", s2, False)]
+    calls = [Call(b"a.b.Bounded", b"{}"), Call(b"a.b.Plain", b"{}")] + ([Call(b"org.varlink.service.GetInfo", None)] if rng.random() < 0.5 else [])
+    fr = [S.call_bytes(rng, c.method, c.params, False, False, False, canonical=True) + b"\x00" for c in calls]
+    chunks = [fr[0], fr[1][:1], fr[1][1:2], fr[1][2:]] + fr[2:]       # 40 ms apart: the second call is complete 120 ms after the first
+    secs.append("conn slow %s" % ",".join(c.hex() for c in chunks))
+    meta = dict(registry=[b"a.b"], descrs={S.SVC: svc_descr(), b"a.b": b"interface a.b\nmethod M() -> ()"}, scripts=scripts, conns=[(calls, b"".join(fr))],
+                info={"vendor": "v", "product": "p", "version": "1", "url": "u", "interfaces": [S.SVC.decode(), "a.b"]}, comparable=True)
+    return " | ".join(secs), meta
+
+
 def check_conn(meta, calls, cs, ci):
     """Compare one connection's observable with the statement's reading. -> error text or None"""
     out, log, ovl = conn_fields(cs)
@@ -210,7 +227,7 @@ def expected_conn(registry, descrs, scripts, calls, info):
             obj = None
             if st.kind in ("b", "w"):
                 continue            # a rendezvous with another connection's handler / a pause: no effect of its own
-            if st.kind == "r":
+            if st.kind in ("r", "d"):
                 if st.cont and not c.more:
                     ok = False
                 else:
